@@ -1064,3 +1064,64 @@ func (t *tls) set(c typeCache) {
 		t.m[id] = c
 	}
 }
+
+// expandSiblingRec rewrites a projected type so that only occurrences of a nominal type INSIDE its own
+// definition stay back references; a repeated sibling occurrence is written in full again. The run-time
+// type judge of the argument check (Trace_ArgValidation) compares type trees and knows `rec` only as
+// true recursion.
+func expandSiblingRec(x any) any {
+	defs := map[string]M{}
+	var collect func(any)
+	collect = func(x any) {
+		switch x := x.(type) {
+		case []any:
+			for _, e := range x {
+				collect(e)
+			}
+		case M:
+			if x["k"] == "comp" {
+				if tid, ok := x["tid"].(string); ok {
+					if _, have := defs[tid]; !have {
+						defs[tid] = x
+					}
+				}
+			}
+			for _, e := range x {
+				collect(e)
+			}
+		}
+	}
+	collect(x)
+	enclosing := map[string]bool{}
+	var walk func(any) any
+	walk = func(x any) any {
+		switch x := x.(type) {
+		case []any:
+			out := make([]any, len(x))
+			for i, e := range x {
+				out[i] = walk(e)
+			}
+			return out
+		case M:
+			tid, _ := x["tid"].(string)
+			if x["k"] == "rec" {
+				def, ok := defs[tid]
+				if enclosing[tid] || !ok {
+					return x
+				}
+				return walk(def)
+			}
+			if x["k"] == "comp" {
+				enclosing[tid] = true
+				defer delete(enclosing, tid)
+			}
+			out := M{}
+			for k, e := range x {
+				out[k] = walk(e)
+			}
+			return out
+		}
+		return x
+	}
+	return walk(x)
+}
